@@ -32,9 +32,9 @@ func mFileClose(f *os.File) error { return nil }
 //verif:model io.Copy
 func mCopy(dst io.Writer, src io.Reader) (int64, error) { return 0, nil }
 
-const maxLen = 4
 
 func harnessC13() {
+	maxLen := vParam("bytes")
 	d := vNondetBytes("d", maxLen)   // the digest of the file
 	c := vNondetBytes("c", maxLen+1) // the configured checksum: any length, any bytes
 	openFails = vNondetBool("openFails")
